@@ -559,7 +559,8 @@ func parseRateLimit(rateLimit string) (rateCount int, rateWindow time.Duration, 
 		return
 	}
 	win := parts[1]
-	if len(win) > 0 && (win[0] < '0' || win[0] > '9') {
+	// "1000/s" means 1000 per 1s: prepend 1 only if the window starts with a time unit
+	if len(win) > 0 && !strings.ContainsRune("0123456789.+-", rune(win[0])) {
 		win = "1" + win
 	}
 	if rateWindow, err = time.ParseDuration(win); err != nil || rateWindow < 0 {
